@@ -1,4 +1,5 @@
 import GnarkVerif.Proofs.RecodeGen
+import GnarkVerif.Proofs.RecodeStatsGen
 import GnarkVerif.Props.C03
 /-
 C04_recode_gen — tie T for the signed-digit RECODING of `partitionScalars` (/repo/ecc/<curve>/multiexp.go, the 9 MSM packages; cited
@@ -17,9 +18,13 @@ C01/C08's subject), `isZero` = `scalars[i].IsZero()` (instantiated with `s = 0`)
 computeNbChunks(c) (instantiated with the model's `computeNbChunks bits c`; the text of computeNbChunks is tied by C04_gen).
 ASSUMED (subset semantics, Model/GoImp.lean): uint64 = Nat with explicit % 2^64, `<<` = shl64; Go int = unbounded Int (all int values
 here are below 2^c + 2, c < 64); a read scalar[k] beyond the array is not a panic but the value of the parameter.
-NOT translated: the chunk statistics after the first parallel.Execute (their text is recorded as `statsSrc` and pinned by
-`C04recode_stats_pinned`, so an edit of them is reported; what they compute stays hand model + tie K), the tiling of parallel.Execute
-(C04_execgen).
+Chunk statistics (after the first parallel.Execute): the body of `for _, digit := range chunkDigits` is translated (statStep: the
+`continue` on 0, totalOps++, bucketID from the uint16 digit, the bit set b as a function ℕ → Bool, nz++) and its frame (`var b
+bitSetC<N>`, `totalOps := 0`, `nz := 0`, the slice digits[chunkID*len(scalars):(chunkID+1)*len(scalars)]) pattern-checked: statLoop;
+`C04recode_stats` proves totalOps = Model.MSM.chunkOps and nz = the number of distinct buckets hit.  NOT translated: the float32
+arithmetic that turns (totalOps, nz) into weight / ppBucketFilled and the normalisation by the mean (whole text of that part recorded as
+`statsSrc` and pinned by `C04recode_stats_pinned`, so an edit is reported; tie K otherwise); an index b[bucketID] beyond the bit set is
+not a panic; the tiling of parallel.Execute (C04_execgen).
 
 Non-interference: the generated `scalarDigits` is a function of ONE scalar (the translator checked that the per-scalar body mentions
 `scalars`, `i` and `digits` only in the frame and in the final stores at `int(chunk)*len(scalars)+i`); `C04recode_index_inj` says that
@@ -105,7 +110,18 @@ theorem C04recode_index_inj (n chunk i chunk' i' : ℕ) (hi : i < n) (hi' : i' <
 
 example : (1 : ℕ) < 3 ∧ (2 : ℕ) < 3 := by decide
 
-/-- the part of partitionScalars that is NOT translated (chunk statistics, after the first parallel.Execute) has this text in all 9
+/-- **chunk statistics = their definition**: over the uint16 digits of one chunk the translated loop counts the non-zero digits
+(totalOps = `Model.MSM.chunkOps`, from which `weight` is computed) and the DISTINCT buckets they address (nz = nbBucketFilled; the
+bit set marks exactly the buckets `bucketOf digit` of the non-zero digits) -/
+theorem C04recode_stats (col : List ℕ) (hcol : ∀ d ∈ col, d < 65536) :
+    (∀ x, (statLoop col).1 x = true ↔ x ∈ ((col.filter (· != 0)).map GV.MSM.bucketOf).toFinset) ∧
+    (statLoop col).2.1 = (GV.MSM.chunkOps col : ℤ) ∧
+    (statLoop col).2.2 = ((((col.filter (· != 0)).map GV.MSM.bucketOf).toFinset.card : ℕ) : ℤ) :=
+  Stats.statLoop_eq col hcol
+
+example : ∀ d ∈ [0, 6, 7, 6, 2], d < 65536 := by decide
+
+/-- the text of partitionScalars after the first parallel.Execute (only its inner loop is translated) (chunk statistics, after the first parallel.Execute) has this text in all 9
 packages (the bit-set type bitSetC15 / bitSetC16 masked): an edit of it breaks this theorem -/
 theorem C04recode_stats_pinned : statsSrc =
     "chunkStats := make([]chunkStat, nbChunks) ; if c <= 9 { return digits, chunkStats } ; parallel.Execute(len(chunkStats), func(start, end int) { for chunkID := start; chunkID < end; chunkID++ { var b bitSetC<N> chunkDigits := digits[chunkID*len(scalars) : (chunkID+1)*len(scalars)] totalOps := 0 nz := 0 for _, digit := range chunkDigits { if digit == 0 { continue } totalOps++ bucketID := digit >> 1 if digit&1 == 0 { bucketID -= 1 } if !b[bucketID] { nz++ b[bucketID] = true } } chunkStats[chunkID].weight = float32(totalOps) chunkStats[chunkID].ppBucketFilled = (float32(nz) * 100.0) / float32(int(1<<(c-1))) chunkStats[chunkID].nbBucketFilled = nz } }, nbTasks) ; totalOps := float32(0.0) ; for _, stat := range chunkStats { totalOps += stat.weight } ; target := totalOps / float32(nbChunks) ; if target != 0.0 { for i := 0; i < len(chunkStats); i++ { chunkStats[i].weight = (chunkStats[i].weight * 100.0) / target } } ; return digits, chunkStats" := rfl
